@@ -21,9 +21,15 @@ _PLAIN_VALUES = [
     True, False, None, 0, 1, 2, -1, 1.0, 0.0, 1.5,
     'auto', 'star', 'call', 'left', 'right', 'strict', 'identifier', 'all', 'block', 'none', 'line',
     'all+1', 'block-', 'line+1', '+', '-2', '', 'x', 'pos', 'kw_maybe', '<',
-    (), (True,), ('line',), ('all', 'line'), ('line', 'all'), ('none', 'none'), (False, 'line-'), (3, 'x'), (1, 2, 3),
+    (), (True,), ('line',), ('all', 'line'), ('line', 'all'), ('line', True), ('line+1', 'line'), ('line-', 'none'), ('none', 'none'), (False, 'line-'), (3, 'x'), (1, 2, 3),
     [], ['<'], ['is', 'not'], ['not in'], ['>='],        # lists: MUTABLE option objects (accepted by `op`)
 ]
+
+
+# documented tokens of the `trivia` option (docstring of FST.options): each may stand alone, as the only element of a
+# 1-tuple (trailing position) or at either position of a 2-tuple (leading, trailing); plus near-misses and non-tokens
+TRIV_TOKENS = [True, False, 0, 2, -1, 'all', 'block', 'none', 'line', 'all+', 'all+1', 'block-', 'block-3', 'none+2',
+               'line+', 'line-1', '+', '-2', '', 'x', 'lines', 'all+x', 'ALL', None, 1.5, ['all']]
 
 
 def _is_plain(v):
@@ -191,5 +197,17 @@ def lean_table(dom: Domain) -> str:
     s += f'def acceptGlobal : List (Nat × List Nat × List Nat) := {acc(t[False])}\n\n'
     s += '/-- `check_options({name: value}, all=True)` -/\n'
     s += f'def acceptAll : List (Nat × List Nat × List Nat) := {acc(t[True])}\n\n'
+    # tokens of `trivia` as the check function classifies them: (isinstance int, isinstance str, matches the module's
+    # `_re_trivia_leading`, matches `_re_trivia_trailing`)
+    b = lambda x: 'true' if x else 'false'
+    toks = []
+    for t in TRIV_TOKENS:
+        st = isinstance(t, str)
+        toks.append(f'({b(isinstance(t, int))}, {b(st)}, {b(st and bool(dom.fo._re_trivia_leading.match(t)))}, '
+                    f'{b(st and bool(dom.fo._re_trivia_trailing.match(t)))})')
+    s += '/-- tokens of the `trivia` option: (is int, is str, matches `_re_trivia_leading`, matches `_re_trivia_trailing`) -/\n'
+    s += f'def trivTokens : List (Bool × Bool × Bool × Bool) := [{", ".join(toks)}]\n'
+    s += f'def trivTokenReprs : List String := {strs([repr(t) for t in TRIV_TOKENS])}\n'
+    s += f"/-- index of the token 'line' (valid only in the trailing position) -/\ndef trivLine : Nat := {TRIV_TOKENS.index('line')}\n\n"
     s += 'end Pfst.Gen.Options\n'
     return s
